@@ -4,6 +4,7 @@ package main
 
 import (
 	"bytes"
+	"encoding/json"
 	"fmt"
 	"os"
 	"runtime"
@@ -12,6 +13,9 @@ import (
 	"strings"
 	"sync"
 	"sync/atomic"
+	"time"
+
+	"golang.org/x/perf/cmd/benchstat/internal/benchtab"
 
 	"golang.org/x/perf/internal/verifh/hx"
 )
@@ -59,7 +63,9 @@ func schedCase(id int, dir string, c *Case, args []string, run *Run) {
 					if !bytes.Equal(out, wantOut) || !bytes.Equal(errb, wantErr) || code != 0 {
 						same = 0
 						detail = fmt.Sprintf("bytes differ procs=%s rep=%d format=%s race=%v code=%d", p, rep, format, isRace, code)
-						if bytes.Contains(errb, []byte("panic:")) || bytes.Contains(errb, []byte("fatal error:")) {
+						if code == -2 {
+							crashed = fmt.Sprintf("hang: benchstat did not exit within %v at GOMAXPROCS=%s format=%s race=%v", binTimeout, p, format, isRace)
+						} else if bytes.Contains(errb, []byte("panic:")) || bytes.Contains(errb, []byte("fatal error:")) {
 							crashed = fmt.Sprintf("benchstat procs=%s format=%s race=%v: %s", p, format, isRace, firstPanicLine(errb))
 						}
 					}
@@ -85,9 +91,23 @@ func schedCase(id int, dir string, c *Case, args []string, run *Run) {
 		if pr.distinct != 1 {
 			inproc = 0
 		}
+		if pr.hang != "" {
+			crashed = "hang: " + pr.hang
+		}
 		hx.Printf("info %d perturb runs=%d settings=%d distinct_outputs=%d max_goroutines=%d cells=%d\n", id, pr.runs, pr.settings, pr.distinct, pr.maxG, pr.cells)
 	}
 	hx.Printf("obs %d sched same=%d\n", id, inproc)
+
+	// history: the same call before and after calls with other -alpha values, in ONE process of
+	// the real entry point (hook hooks/benchstat_history.go); its output must not depend on them
+	hist := 1
+	if plainBin != "" {
+		if d := historyCheck(dir, c, args, run); d != "" {
+			hist = 0
+			detail = "history: " + d
+		}
+		runs++
+	}
 
 	// line permutation inside configuration blocks
 	perm := 1
@@ -115,9 +135,9 @@ func schedCase(id int, dir string, c *Case, args []string, run *Run) {
 		bin = "skip"
 	}
 	if detail != "" {
-		hx.Printf("sobs %d same=%d race=%d perm=%d bin=%s detail=%s\n", id, same, race, perm, bin, strings.ReplaceAll(detail, " ", "_"))
+		hx.Printf("sobs %d same=%d race=%d perm=%d hist=%d bin=%s detail=%s\n", id, same, race, perm, hist, bin, strings.ReplaceAll(detail, " ", "_"))
 	} else {
-		hx.Printf("sobs %d same=%d race=%d perm=%d bin=%s\n", id, same, race, perm, bin)
+		hx.Printf("sobs %d same=%d race=%d perm=%d hist=%d bin=%s\n", id, same, race, perm, hist, bin)
 	}
 	if crashed != "" {
 		hx.Printf("crash %d %s\n", id, crashed)
@@ -255,7 +275,13 @@ func compareCells(a, b map[string]csvCell) string {
 
 type perturbResult struct {
 	runs, settings, distinct, maxG, cells int
+	hang                                 string
 }
+
+var (
+	hangLimit = 8 * time.Second
+	hangsSeen int
+)
 
 // perturb re-runs the real ToTables on the Builder of this case. Completion orders of the
 // per-cell goroutines cannot be logged without replacing builder.go (the code under test) —
@@ -267,7 +293,7 @@ func perturb(run *Run) perturbResult {
 	if run.builder == nil {
 		return pr
 	}
-	procs := []int{1, 2, 4}
+	procs := []int{1, 2, 3}
 	gcs := []int{100}
 	reps := 1
 	if os.Getenv("VERIF_TIER") == "thorough" {
@@ -317,9 +343,27 @@ func perturb(run *Run) perturbResult {
 						runtime.Gosched()
 					}
 				}()
-				tables := run.builder.ToTables(run.opts)
+				// a ToTables that does not return is a hang (the leaked goroutine stays blocked)
+				done := make(chan *benchtab.Tables, 1)
+				go func() { done <- run.builder.ToTables(run.opts) }()
+				var tables *benchtab.Tables
+				limit := hangLimit
+				if hangsSeen >= 2 {
+					limit = time.Second // the violation is established; do not spend the budget on it
+				}
+				select {
+				case tables = <-done:
+				case <-time.After(limit):
+					pr.hang = fmt.Sprintf("ToTables did not return within %v at GOMAXPROCS=%d GOGC=%d with %d competing goroutines (in-process, Builder of this case)", limit, p, g, noise)
+					hangsSeen++
+				}
 				stop.Store(true)
 				wg.Wait()
+				if pr.hang != "" {
+					pr.runs++
+					pr.distinct = 0
+					return pr
+				}
 				if int(maxG.Load()) > pr.maxG {
 					pr.maxG = int(maxG.Load())
 				}
@@ -335,4 +379,45 @@ func perturb(run *Run) perturbResult {
 	outputs[string(run.text)+"\x00"+string(run.csv)+"\x00"+string(run.errCSV[len(run.errText):])] = true
 	pr.distinct = len(outputs)
 	return pr
+}
+
+// historyCheck runs [A, A+alpha 0.5, A, A+alpha 0.0001, A] in one process and text and csv
+// format; runs 0, 2, 4 must equal the in-process (fresh state) output of A.
+func historyCheck(dir string, c *Case, args []string, run *Run) string {
+	with := func(alpha string) []string {
+		a := append([]string(nil), c.Flags...)
+		a = append(a, "-alpha", alpha)
+		return append(a, c.Args...)
+	}
+	for _, format := range []string{"text", "csv"} {
+		pre := []string{"-format", format}
+		script := [][]string{append(pre, args...), append(pre, with("0.5")...), append(pre, args...), append(pre, with("0.0001")...), append(pre, args...)}
+		spec, _ := json.Marshal(script)
+		hdir := dir + "-hist"
+		os.RemoveAll(hdir)
+		os.MkdirAll(hdir, 0o755)
+		_, errb, code := runBinary(plainBin, dir, []string{"VERIF_BENCHSTAT_HISTORY=" + string(spec), "VERIF_BENCHSTAT_HISTORY_DIR=" + hdir})
+		wantOut, wantErr := run.text, run.errText
+		if format == "csv" {
+			wantOut, wantErr = run.csv, run.errCSV
+		}
+		res := ""
+		if code != 0 {
+			res = fmt.Sprintf("history process exited %d: %s", code, firstPanicLine(errb))
+		}
+		for _, i := range []int{0, 2, 4} {
+			o, err1 := os.ReadFile(fmt.Sprintf("%s/run%d.out", hdir, i))
+			e, err2 := os.ReadFile(fmt.Sprintf("%s/run%d.err", hdir, i))
+			if res == "" && (err1 != nil || err2 != nil || !bytes.Equal(o, wantOut) || !bytes.Equal(e, wantErr)) {
+				res = fmt.Sprintf("call %d of [A, A -alpha 0.5, A, A -alpha 0.0001, A] format=%s differs from A in a fresh process", i, format)
+			}
+		}
+		if os.Getenv("VERIF_KEEP") == "" {
+			os.RemoveAll(hdir)
+		}
+		if res != "" {
+			return res
+		}
+	}
+	return ""
 }
